@@ -125,17 +125,17 @@ theorem kind_ignored (cfg : Cfg) (pfx : String) (mask : Bool) (raw : Bytes) (nod
   cases node with
   | other k => exact absurd rfl (hk k)
   | dir d cs =>
-    simp only [preDispatch, ht, hu, alookup]
+    simp only [preDispatch, ht, hu, ignoreBehavior, alookup]
     rcases hst with h | ⟨h, hm⟩
     · simp [ignoreDecision, h, hc]
     · simp [ignoreDecision, h, hc, hm]
   | file c p m sz i =>
-    simp only [preDispatch, ht, hu, alookup]
+    simp only [preDispatch, ht, hu, ignoreBehavior, alookup]
     rcases hst with h | ⟨h, hm⟩
     · simp [ignoreDecision, h, hc]
     · simp [ignoreDecision, h, hc, hm]
   | symlink t =>
-    simp only [preDispatch, ht, hu, alookup]
+    simp only [preDispatch, ht, hu, ignoreBehavior, alookup]
     rcases hst with h | ⟨h, hm⟩
     · simp [ignoreDecision, h, hc]
     · simp [ignoreDecision, h, hc, hm]
